@@ -226,7 +226,20 @@ def run(prog, chk):
                 err = "the slot ticket (node->%s) is not checked before the CAS" % own
             if not err:
                 # the CAS result is compared with the expected value
-                okc = all(any(a[0] != "case" and c in f.desc(a[0]) and "==" in fin.key(f, a[0]) and a[1] for a in fin.dominating_atoms(f, f.node_pos(b))) for c in cas for b in body)
+                defs_ = q.local_defs(f)
+
+                def carries(a0, c):
+                    """the atom tests the CAS result: it contains the call, or a local every definition of which is that call"""
+                    if c in f.desc(a0):
+                        return True
+                    for x in f.desc(a0):
+                        nx = f.nodes[x]
+                        if nx["k"] == "DeclRefExpr" and nx["ref"].get("dk") == "local":
+                            dl = [d for d in defs_.get(nx["ref"]["id"], []) if d[2] is not None]
+                            if dl and all(f.strip(d[2]) == c or c in f.desc(d[2]) for d in dl):
+                                return True
+                    return False
+                okc = all(any(a[0] != "case" and carries(a[0], c) and "==" in fin.key(f, a[0]) and a[1] for a in fin.dominating_atoms(f, f.node_pos(b))) for c in cas for b in body)
                 if not okc:
                     err = "the slot is used although the compare-and-swap may have failed"
             if err:
